@@ -17,13 +17,17 @@
 EXTENDS Naturals, Sequences, FiniteSets, TLC
 
 Sites == {"top", "group", "repeat", "grouprow", "group_in_repeat"}
-NameClasses == {"valid", "name", "Label", "reserved_prefix", "digit_first", "space"}
+\* property-name classes; the reserved prefix is reserved at the START of a name only
+ValidNames == {"valid", "inner_dunder", "trailing_dunder", "underscore_first"}
+NameClasses == ValidNames \cup {"name", "Label", "reserved_prefix", "digit_first", "space"}
+\* an unknown entities column: any header outside the documented five - including names that are fields of other sheets
+ExtraCols == {"wat", "name", "Type", "parameters", "parent", "extra_data"}
 DatasetClasses == {"valid", "reserved_prefix", "period", "digit_first", "space"}
 
 VARIABLES c, phase
 evars == <<c, phase>>
 Base == [id |-> FALSE, cr |-> FALSE, up |-> FALSE, lab |-> TRUE, refs |-> FALSE, dataset |-> "valid", nrows |-> 1,
-         extracol |-> FALSE, sheet |-> TRUE, saveto |-> {}, nsset |-> FALSE]
+         extracol |-> "none", sheet |-> TRUE, saveto |-> {}, nsset |-> FALSE]
 \* every one of the 16 presence combinations x expression shape x every set of save_to sites (valid names);
 \* then single departures: a bad dataset name, a bad property name at one site, two entity rows, an unknown column,
 \* save_to without an entities sheet
@@ -37,7 +41,7 @@ Depart ==
      \/ \E s \in {"top", "group"}, n \in NameClasses \ {"valid"} : c' = [c EXCEPT !.saveto = (c.saveto \ {<<s, "valid">>}) \cup {<<s, n>>}]
      \/ c' = [c EXCEPT !.nrows = 2]
      \/ c' = [c EXCEPT !.nrows = 3]          \* (3: two rows, the second without a dataset name but otherwise filled)
-     \/ c' = [c EXCEPT !.extracol = TRUE]
+     \/ \E e \in ExtraCols : c' = [c EXCEPT !.extracol = e]
      \/ (c.saveto # {} /\ c' = [c EXCEPT !.sheet = FALSE])
 Keep == phase = "pick" /\ phase' = "done" /\ UNCHANGED c
 ENext == Depart \/ Keep
@@ -47,10 +51,10 @@ ESpec == EInit /\ [][ENext]_evars
 TableReject(x) == \/ (x.up /\ ~x.id)            \* 0 0 1 and 0 1 1: need an id to update
                   \/ (x.id /\ x.cr /\ ~x.up)    \* 1 1 0: id only acceptable when updating
                   \/ (~x.id /\ ~x.lab)          \* creating needs a label
-SaveToReject(x) == \/ \E s \in x.saveto : s[1] \in {"repeat", "grouprow", "group_in_repeat"} \/ s[2] # "valid"
+SaveToReject(x) == \/ \E s \in x.saveto : s[1] \in {"repeat", "grouprow", "group_in_repeat"} \/ s[2] \notin ValidNames
                    \/ (~x.sheet /\ x.saveto # {})
 Rejected(x) == IF ~x.sheet THEN x.saveto # {}
-               ELSE TableReject(x) \/ SaveToReject(x) \/ x.dataset # "valid" \/ x.nrows > 1 \/ x.extracol
+               ELSE TableReject(x) \/ SaveToReject(x) \/ x.dataset # "valid" \/ x.nrows > 1 \/ x.extracol # "none"
 Declares(x) == x.sheet /\ ~Rejected(x)
 Creates(x) == x.cr \/ ~x.id       \* valid rows only: 000 / 010 create, 111 creates and updates
 Updates(x) == x.id
